@@ -17,52 +17,68 @@ use crate::report::{Acc, Check, Tier};
 use crate::util;
 use crate::world::{self, Verdict};
 
+/// One file of the link directory, `<step>.<prefix of f>.link`.
 #[derive(Clone, Copy, PartialEq, Eq, Hash, Debug, PartialOrd, Ord)]
 pub enum Cell {
     Absent,
-    /// valid link signed by the key the file is named for
-    V,
-    /// the key's id with a signature made over other content
-    W,
-    /// content altered after signing
+    /// content altered after signing (signed by f)
     T,
-    /// named for f, signed only by another key
-    X,
-    /// signed by f and by another key
-    M,
     /// a (zero-step) sub-layout signed by f instead of a link
     L,
     /// not JSON
     G,
-    /// an invalid signature labelled f followed by a valid signature by another key
-    WM,
-    /// a valid signature by another key followed by an invalid signature labelled f
-    MW,
+    /// a link over the base content carrying one or two signature entries
+    /// (second = 5 means "none"); entry kinds are indices into ENTRY
+    Sigs(u8, u8),
 }
 
-pub const CELLS: [Cell; 10] = [Cell::Absent, Cell::V, Cell::W, Cell::T, Cell::X, Cell::M, Cell::L, Cell::G, Cell::WM, Cell::MW];
+/// Signature-entry alphabet, relative to the key f the file is named for:
+/// own-valid, own-invalid (f's id, signature over other content), other-valid
+/// (another functionary g), other-invalid, unrelated-valid (a key outside the layout).
+pub const ENTRY: [&str; 5] = ["own-valid", "own-invalid", "other-valid", "other-invalid", "unrelated-valid"];
+
+pub fn cells() -> Vec<Cell> {
+    let mut v = vec![Cell::Absent, Cell::T, Cell::L, Cell::G];
+    for a in 0..5u8 {
+        v.push(Cell::Sigs(a, 5));
+    }
+    for a in 0..5u8 {
+        for b in 0..5u8 {
+            v.push(Cell::Sigs(a, b));
+        }
+    }
+    v
+}
+
+pub const V: Cell = Cell::Sigs(0, 5);
 
 impl Cell {
-    fn name(&self) -> &'static str {
+    fn name(&self) -> String {
         match self {
-            Cell::Absent => "absent",
-            Cell::V => "valid",
-            Cell::W => "wrongly-signed",
-            Cell::T => "tampered",
-            Cell::X => "signed-by-other-key",
-            Cell::M => "multiply-signed",
-            Cell::L => "sublayout",
-            Cell::G => "garbage",
-            Cell::WM => "invalid-own-signature+valid-other-signature",
-            Cell::MW => "valid-other-signature+invalid-own-signature",
+            Cell::Absent => "absent".into(),
+            Cell::T => "tampered".into(),
+            Cell::L => "sublayout".into(),
+            Cell::G => "garbage".into(),
+            Cell::Sigs(a, 5) => format!("link[{}]", ENTRY[*a as usize]),
+            Cell::Sigs(a, b) => format!("link[{},{}]", ENTRY[*a as usize], ENTRY[*b as usize]),
         }
     }
     fn from_name(s: &str) -> Cell {
-        *CELLS.iter().find(|c| c.name() == s).unwrap_or(&Cell::Absent)
+        cells().into_iter().find(|c| c.name() == s).unwrap_or(Cell::Absent)
     }
-    /// Does this cell carry a valid signature by the key it is filed under?
+    /// Does this file carry a valid signature by the key it is filed under?
     fn valid_evidence(&self) -> bool {
-        matches!(self, Cell::V | Cell::M | Cell::L)
+        match self {
+            Cell::L => true,
+            Cell::Sigs(a, b) => *a == 0 || *b == 0,
+            _ => false,
+        }
+    }
+    fn has_invalid_own(&self) -> bool {
+        matches!(self, Cell::Sigs(a, b) if *a == 1 || *b == 1)
+    }
+    fn only_foreign(&self) -> bool {
+        matches!(self, Cell::Sigs(a, b) if *a >= 2 && (*b >= 2))
     }
 }
 
@@ -90,42 +106,39 @@ fn cell_content(step: &str, i: usize, cell: Cell) -> Option<String> {
     let f = functionaries();
     let k = f[i];
     let g = f[other(i)];
+    let x = keys::get("ed5");
     match cell {
         Cell::Absent => None,
-        Cell::V => Some(world::block_text(&world::sign_link(base_link(step), &[k]))),
-        Cell::W => {
-            let mut otherl = base_link(step);
-            otherl.command = vec!["other".to_string()].into();
-            let donor = world::block_value(&world::sign_link(otherl, &[k]));
-            let mut v = world::block_value(&world::sign_link(base_link(step), &[k]));
-            v["signatures"] = donor["signatures"].clone();
-            Some(v.to_string())
-        }
         Cell::T => {
             let mut v = world::block_value(&world::sign_link(base_link(step), &[k]));
             v["signed"]["byproducts"]["stdout"] = json!("altered");
             Some(v.to_string())
         }
-        Cell::X => Some(world::block_text(&world::sign_link(base_link(step), &[g]))),
-        Cell::M => Some(world::block_text(&world::sign_link(base_link(step), &[g, k]))),
         Cell::L => {
             let inner = world::layout(vec![], vec![], &[], world::far_future());
             Some(world::block_text(&world::sign_layout(inner, &[k])))
         }
         Cell::G => Some("{ this is not json".to_string()),
-        Cell::WM | Cell::MW => {
-            // f's entry carries a signature made over other content; g's entry is valid
+        Cell::Sigs(a, b) => {
             let mut otherl = base_link(step);
             otherl.command = vec!["other".to_string()].into();
-            let donor = world::block_value(&world::sign_link(otherl, &[k]));
-            let mut v = world::block_value(&world::sign_link(base_link(step), &[g]));
-            let bad = donor["signatures"][0].clone();
-            let arr = v["signatures"].as_array_mut().unwrap();
-            if cell == Cell::WM {
-                arr.insert(0, bad);
-            } else {
-                arr.push(bad);
+            let entry = |e: u8| -> Value {
+                let (key, valid) = match e {
+                    0 => (k, true),
+                    1 => (k, false),
+                    2 => (g, true),
+                    3 => (g, false),
+                    _ => (x, true),
+                };
+                let content = if valid { base_link(step) } else { otherl.clone() };
+                world::block_value(&world::sign_link(content, &[key]))["signatures"][0].clone()
+            };
+            let mut v = world::block_value(&world::sign_link(base_link(step), &[]));
+            let mut sigs = vec![entry(a)];
+            if b < 5 {
+                sigs.push(entry(b));
             }
+            v["signatures"] = Value::Array(sigs);
             Some(v.to_string())
         }
     }
@@ -183,11 +196,22 @@ fn populate(dir: &Path, st: &State, contents: &[Vec<Vec<Option<String>>>]) {
     let f = functionaries();
     for (si, row) in st.cells.iter().enumerate() {
         for (i, c) in row.iter().enumerate() {
-            let ci = CELLS.iter().position(|x| x == c).unwrap();
+            let ci = cell_index(*c);
             if let Some(txt) = &contents[si][i][ci] {
                 world::write(dir, &world::link_file(&step_name(si), f[i]), txt);
             }
         }
+    }
+}
+
+fn cell_index(c: Cell) -> usize {
+    match c {
+        Cell::Absent => 0,
+        Cell::T => 1,
+        Cell::L => 2,
+        Cell::G => 3,
+        Cell::Sigs(a, 5) => 4 + a as usize,
+        Cell::Sigs(a, b) => 9 + 5 * a as usize + b as usize,
     }
 }
 
@@ -214,15 +238,15 @@ fn reasons(spec: &LayoutSpec, st: &State) -> String {
             } else if !IN_TABLE[i] {
                 rs.insert("not-in-keytable");
             }
+            if c.has_invalid_own() {
+                rs.insert("bad-signature");
+            }
+            if c.only_foreign() {
+                rs.insert("prefix-mismatch");
+            }
             match c {
-                Cell::W | Cell::WM | Cell::MW => {
-                    rs.insert("bad-signature");
-                }
                 Cell::T => {
                     rs.insert("tampered");
-                }
-                Cell::X => {
-                    rs.insert("prefix-mismatch");
                 }
                 Cell::G => {
                     rs.insert("garbage");
@@ -288,7 +312,7 @@ fn shrink(
 
 fn bfs(n_steps: usize, depth: usize) -> (Vec<State>, u64) {
     let empty = State { cells: vec![[Cell::Absent; 4]; n_steps] };
-    let full = State { cells: vec![[Cell::V; 4]; n_steps] };
+    let full = State { cells: vec![[V; 4]; n_steps] };
     let mut seen: HashSet<State> = HashSet::new();
     let mut order = vec![];
     let mut q = VecDeque::new();
@@ -305,7 +329,7 @@ fn bfs(n_steps: usize, depth: usize) -> (Vec<State>, u64) {
         }
         for si in 0..n_steps {
             for i in 0..4 {
-                for c in CELLS {
+                for c in cells() {
                     if s.cells[si][i] == c {
                         continue;
                     }
@@ -327,7 +351,7 @@ fn contents_for(n_steps: usize) -> Vec<Vec<Vec<Option<String>>>> {
     (0..n_steps)
         .map(|si| {
             (0..4)
-                .map(|i| CELLS.iter().map(|c| cell_content(&step_name(si), i, *c)).collect())
+                .map(|i| cells().iter().map(|c| cell_content(&step_name(si), i, *c)).collect())
                 .collect()
         })
         .collect()
@@ -345,7 +369,7 @@ fn sweep(states: &[State], specs: &[LayoutSpec], n_steps: usize) -> Acc {
                 .cells
                 .iter()
                 .flatten()
-                .any(|c| !matches!(c, Cell::Absent | Cell::V));
+                .any(|c| *c != Cell::Absent && *c != V);
             if nonvalid {
                 acc.nontrivial += 1;
             }
@@ -396,13 +420,13 @@ pub fn run(tier: Tier) -> i32 {
     let specs1: Vec<LayoutSpec> = (0u8..16)
         .flat_map(|m| (0u32..4).map(move |t| LayoutSpec { steps: vec![(m, t)] }))
         .collect();
-    let (states1, tr1) = bfs(1, if tier.thorough() { 4 } else { 3 });
+    let (states1, tr1) = bfs(1, if tier.thorough() { 3 } else { 2 });
     let mut acc = sweep(&states1, &specs1, 1);
     acc.states += states1.len() as u64;
     acc.transitions += tr1;
-    let mut bound = format!("1 step: BFS depth {} from the empty and the fully valid directory = {} populations x 64 layouts", if tier.thorough() { "4 (all populations)" } else { "3" }, states1.len());
+    let mut bound = format!("1 step: BFS depth {} from the empty and the fully valid directory = {} populations x 64 layouts", if tier.thorough() { "3" } else { "2" }, states1.len());
     // two steps: D is authorised only for the second step
-    let depth2 = if tier.thorough() { 3 } else { 2 };
+    let depth2 = if tier.thorough() { 2 } else { 1 };
     let specs2: Vec<LayoutSpec> = {
         let masks: Vec<u8> = if tier.thorough() { (0u8..16).collect() } else { vec![0b0001, 0b0011, 0b0111, 0b1000, 0b1011] };
         masks
@@ -421,7 +445,7 @@ pub fn run(tier: Tier) -> i32 {
     bound += &format!("; 2 steps: BFS depth {depth2} = {} populations x {} layouts", states2.len(), specs2.len());
     c.acc = acc;
     c.bound_completed = bound;
-    c.rule = "state = link-directory population: per (step, functionary in {A,B in key table; C not in key table; D in key table}) one of absent/valid/wrongly-signed/tampered/signed-by-other-key/multiply-signed/sublayout/garbage/invalid-own+valid-other signature (both orders); transition = set one cell; every state is run through in_toto_verify for every layout (authorised subset x threshold); non-trivial = population with at least one non-valid file".into();
+    c.rule = "state = link-directory population: per (step, functionary in {A,B in key table; C not in key table; D in key table}) one of absent / tampered / sublayout / garbage / a link with one or two signature entries over {own-valid, own-invalid, other-valid, other-invalid, unrelated-valid} in every order (34 cells); transition = set one cell; every state is run through in_toto_verify for every layout (authorised subset x threshold); non-trivial = population with at least one non-valid file".into();
     c.assume("all valid links carry identical artifacts and there are no rules (isolates C07 and C03)");
     c.assume("ring's signature verification is a trusted black box");
     c.assume("one-directional oracle: a verifier that rejects more than necessary is not reported");
